@@ -37,7 +37,7 @@ def has_unmodelled(ctx):
     ['LVA', argspec] = the legacy verbatim parser for a \\verb-like macro WITH leading standard arguments"""
     if ctx == 'default':
         return False
-    bad = lambda a: a is not None and (a[0] in ('LVA', 'SH', 'VB') or (a[0] == 'S' and any(sp[1] in ('+c', '-c') or sp[0] == 'TK' for sp in a[1])))
+    bad = lambda a: a is not None and (a[0] in ('LVA', 'SH', 'VB') or (a[0] == 'S' and any(sp[1] in ('+c', '-c') or sp[0] in ('TK', 'EM', 'AD', 'ADO') for sp in a[1])))
     if ctx.get('provide') or ctx.get('lists'):
         return True
     return any(bad(a) for _, a in ctx['macros']) or any(bad(a) for _, a, _ in ctx['envs']) or any(bad(a) for _, a in ctx['specials'])
@@ -74,6 +74,12 @@ def make_argspec_list(specs):
             # "information field" macros tacked on after an argument (public parser class; \notag takes no argument)
             from pylatexenc.latexnodes.parsers import LatexTackOnInformationFieldMacrosParser
             p = LatexTackOnInformationFieldMacrosParser(['label', 'tag', 'notag'], allow_multiple=True, macro_arg_parsers={'notag': None})
+        elif kind == 'EM':
+            p = 'e{^_}'                  # xparse-style embellishments (documented argument specification string)
+        elif kind == 'AD':
+            p = 'AnyDelimited'           # documented argument specification strings of LatexStandardArgumentParser
+        elif kind == 'ADO':
+            p = 'AnyDelimitedOptional'
         elif kind == 'm0':
             p = LatexStandardArgumentParser('{', allow_pre_space=False)
         elif kind == 'o1':
